@@ -65,7 +65,7 @@ def gen_cases(tier, seed):
             # the loop's current is stated in the run's current units: one statement in uA, the other not
             ua, ub = systems[0], [("nm", "uT", "nA"), ("mm", "T", "mA"), ("um", "uT", "mA")][(k // 4) % 3]
         elif nt and (k // 4) % 2 == 0:
-            ub = [("mm", "T", "mA"), ("mm", "uT", "nA")][(k // 2) % 2]  # terminals stated in mm (any bare number taken as a length is off by 1e3 / 1e6)
+            ub = [("mm", "T", "uA"), ("mm", "uT", "nA")][(k // 2) % 2]  # terminals stated in mm, currents with ANOTHER prefix than lengths
         case = {"layer": "L2", "device": dev, "options": o, "drive": drive, "units_a": list(ua), "units_b": list(ub), "cost": 60 if scr else 15}
         if (k % 4 == 2 and (k // 4) % 2 == 0) or (k % 4 == 1 and (k // 4) % 2 == 1):
             # both statements of the problem are moved in place (same physical displacement) after meshing, before the run
